@@ -293,8 +293,10 @@ def run(ctx):
     if n != len(caselist):
         ctx.machinery("executed %d of %d cases" % (n, len(caselist)))
     bad.sort(key=lambda cr: (len(key_of(cr[0])), key_of(cr[0])))
+    unknown = 0
     for c, r in bad:
-        ctx.violation(key_of(c), "%s [%s]" % (r, c["variant"]), c)
+        if unknown < 25 and ctx.violation(key_of(c), "%s [%s]" % (r, c["variant"]), c):   # replay files for the 25 shortest unknown ones
+            unknown += 1
     nontrivial = set()
     for c in caselist:
         if c["kind"] == "tl" and "{{" in c["page"]:
